@@ -169,6 +169,9 @@ type Sess struct {
 	AfterInjected func(o Op)
 	Yields        int // yield points seen in the last maintenance call
 	lastDone      bool
+	// ClosedRes: after every successful Close on a real file system, record how many descriptors and mappings of the
+	// database directory the process still holds (C15: none - a leak per session grows with history).
+	ClosedRes bool
 	// WalStates logs the projected state of the write-ahead log after every call (strict mode, spec/TraceWal.tla).
 	WalStates bool
 	// NoListing suppresses the directory listing after Compact (golden directories written by the pinned
@@ -627,6 +630,11 @@ func (s *Sess) Do(o Op) error {
 	}
 	if listing != nil {
 		s.R.Emit(listing)
+	}
+	if s.ClosedRes && o.Op == "close" && err == nil {
+		if abs, aerr := filepath.Abs(s.Dir); aerr == nil {
+			s.R.Emit(Ev{"e": "closed_res", "fds": openUnder(s.Dir), "maps": countMaps(abs + "/")})
+		}
 	}
 	if s.WalStates && err == nil && s.DB != nil && o.Op != "close" && o.Op != "next" {
 		var rec []interface{}
